@@ -347,24 +347,28 @@ Proof.
   - eapply inv_tmo; eauto.
 Qed.
 
+Ltac step_dispatch I H :=
+  match type of H with
+  | context [nth_error (ws ?s) ?w] =>
+      let Hn := fresh "Hn" in
+      destruct (nth_error (ws s) w) as [r|] eqn:Hn; [|discriminate];
+      eapply inv_step_w; [exact I|exact Hn| |exact H]; reflexivity
+  | context [nth_error (fs ?s) ?j] =>
+      let Hn := fresh "Hn" in
+      destruct (nth_error (fs s) j) as [r|] eqn:Hn; [|discriminate];
+      eapply inv_step_f; [exact I|exact Hn|exact H]
+  end.
+
 Theorem inv_step s e s' : Inv s -> step s e = Some s' -> Inv s'.
 Proof.
   intros I H. destruct e.
-  - eapply inv_new_w; eauto.
-  - eapply inv_new_f; eauto.
-  - eapply inv_add; eauto.
-  - eapply inv_sub; eauto.
-  - eapply inv_user_set; eauto.
-  - eapply inv_xchg; eauto.
-  all: unfold step in H; simpl ev_w in H; simpl ev_f in H;
-    match type of H with
-    | match nth_error (ws s) ?w with _ => _ end = _ =>
-        destruct (nth_error (ws s) w) as [r|] eqn:Hn; [|discriminate];
-        eapply inv_step_w; eauto; reflexivity
-    | match nth_error (fs s) ?j with _ => _ end = _ =>
-        destruct (nth_error (fs s) j) as [r|] eqn:Hn; [|discriminate];
-        eapply inv_step_f; eauto
-    end.
+  1: eapply inv_new_w; eauto.
+  1: eapply inv_new_f; eauto.
+  1: eapply inv_add; eauto.
+  1: eapply inv_sub; eauto.
+  1: eapply inv_user_set; eauto.
+  1: eapply inv_xchg; eauto.
+  all: unfold step, ev_w, ev_f in H; cbv beta iota in H; step_dispatch I H.
 Qed.
 
 Theorem inv_run tr : forall s s', Inv s -> run s tr = Some s' -> Inv s'.
@@ -376,3 +380,83 @@ Qed.
 
 Theorem inv_reach n tr s : run (init n) tr = Some s -> Inv s.
 Proof. apply inv_run. apply inv_init. Qed.
+
+(* ---- the rule of use as a predicate on traces = the model's [broken] flag ------------------------------- *)
+
+Lemma step_w_counters s w r e s' : step_w s w r e = Some s' ->
+  cnt s' = cnt s /\ uu s' = uu s /\ fired s' = fired s /\ broken s' = broken s /\ pend s' = pend s /\ fs s' = fs s.
+Proof.
+  intros H. destruct e; simpl in H; try discriminate; case_hyp H; inv_some H; simpl; auto 10.
+Qed.
+
+Definition counter_ev (e : ev) : bool :=
+  match e with EAdd _ _ | ESub _ _ | EUserSet | EFAdd _ _ | EFSubA _ _ | EFSubP _ _ => true | _ => false end.
+
+Lemma step_f_counters s j r e s' : step_f s j r e = Some s' -> counter_ev e = false ->
+  cnt s' = cnt s /\ uu s' = uu s /\ fired s' = fired s /\ broken s' = broken s.
+Proof.
+  intros H He. destruct e; simpl in H, He; try discriminate; case_hyp H; inv_some H; simpl; auto.
+Qed.
+
+Lemma leb_ltb a b : (a <=? b) = negb (b <? a).
+Proof. apply Nat.leb_antisym. Qed.
+
+Lemma rule_step s e s' r : step s e = Some s' -> broken s = false ->
+  rule_from (cnt s) (uu s) (fired s) (e :: r) = negb (broken s') && rule_from (cnt s') (uu s') (fired s') r.
+Proof.
+  intros H Hb. destruct e; simpl rule_from.
+  1: { simpl in H; inv_some H; simpl; rewrite Hb; reflexivity. }
+  1: { simpl in H; inv_some H; simpl; rewrite Hb; reflexivity. }
+  1: { simpl in H; case_hyp H; inv_some H; simpl; rewrite Hb; reflexivity. }
+  1: { simpl in H; case_hyp H; inv_some H; simpl; rewrite Hb. rewrite !leb_ltb.
+       destruct (n =? 0), (uu s <? n), (cnt s <? n), (cnt s =? n), (fired s); reflexivity. }
+  1: { simpl in H; inv_some H; simpl; rewrite Hb. destruct (fired s), (cnt s =? 0); reflexivity. }
+  1: { simpl in H; case_hyp H; inv_some H; simpl; rewrite Hb; reflexivity. }
+  all: unfold step, ev_w, ev_f in H; cbv beta iota in H.
+  all: match type of H with
+       | context [nth_error (ws ?s) ?w] =>
+           destruct (nth_error (ws s) w) as [r0|] eqn:Hn; [|discriminate];
+           destruct (step_w_counters _ _ _ _ _ H) as (-> & -> & -> & -> & _); rewrite Hb; reflexivity
+       | context [nth_error (fs ?s) ?j] =>
+           destruct (nth_error (fs s) j) as [r0|] eqn:Hn; [|discriminate]
+       end.
+  all: try (destruct (step_f_counters _ _ _ _ _ H eq_refl) as (-> & -> & -> & ->); rewrite Hb; reflexivity).
+  all: simpl in H; case_hyp H; inv_some H; simpl; rewrite ?Hb, ?Nat.add_0_r, ?Nat.sub_0_r; simpl; try reflexivity.
+  all: rewrite ?leb_ltb; destruct (cnt s <? 1), (cnt s =? 1), (fired s); reflexivity.
+Qed.
+
+Lemma broken_mono_step s e s' : step s e = Some s' -> broken s = true -> broken s' = true.
+Proof.
+  intros H Hb. destruct e.
+  1-6: simpl in H; try (case_hyp H); inv_some H; simpl; rewrite ?Hb; auto.
+  all: unfold step, ev_w, ev_f in H; cbv beta iota in H.
+  all: match type of H with
+       | context [nth_error (ws ?s) ?w] =>
+           destruct (nth_error (ws s) w) as [r0|] eqn:Hn; [|discriminate];
+           destruct (step_w_counters _ _ _ _ _ H) as (_ & _ & _ & -> & _); auto
+       | context [nth_error (fs ?s) ?j] =>
+           destruct (nth_error (fs s) j) as [r0|] eqn:Hn; [|discriminate]
+       end.
+  all: simpl in H; case_hyp H; inv_some H; simpl; rewrite ?Hb; auto.
+Qed.
+
+Lemma broken_mono tr : forall s s', run s tr = Some s' -> broken s = true -> broken s' = true.
+Proof.
+  induction tr as [|e tr IH]; simpl; intros s s' H Hb.
+  - inv_some H. auto.
+  - destruct (step s e) as [s1|] eqn:E; [|discriminate]. eapply IH; eauto. eapply broken_mono_step; eauto.
+Qed.
+
+Lemma rule_run tr : forall s s', run s tr = Some s' -> broken s = false ->
+  rule_from (cnt s) (uu s) (fired s) tr = negb (broken s').
+Proof.
+  induction tr as [|e tr IH]; intros s s' H Hb.
+  - simpl in H. inv_some H. rewrite Hb. reflexivity.
+  - simpl in H. destruct (step s e) as [s1|] eqn:E; [|discriminate].
+    rewrite (rule_step _ _ _ tr E Hb). destruct (broken s1) eqn:Hb1; simpl.
+    + rewrite (broken_mono _ _ _ H Hb1). reflexivity.
+    + apply IH; auto.
+Qed.
+
+Theorem rule_is_not_broken n tr s : run (init n) tr = Some s -> follows_rule n tr = negb (broken s).
+Proof. intros H. apply (rule_run tr (init n) s H). reflexivity. Qed.
